@@ -79,6 +79,8 @@ LT_POINTS = dict(
     binary_irrev=[dict(kf=5, prod="1/2", major=5, minor="1/3"), dict(kf=2, prod=0, major=2, minor=1), dict(kf="1/3", prod=2, major=11, minor=5)],
     binary_rev=[dict(kf=5, kb="1/3", prod="1/2", major=5, minor="1/3"), dict(kf=2, kb=2, prod=0, major=2, minor=1)],
     dimerization_irrev=[dict(kf=5, initial_C=5, t0=0), dict(kf=2, initial_C="1/3", t0="1/2")],
+    # stirred tank, first order: fast reaction, slow feed (k t far beyond 709 while fv t stays small)
+    unary_irrev_cstr=[dict(k=100, r=1, p=0, fr=1, fp=0, fv="1/1000"), dict(k=11, r="1/2", p=2, fr=2, fp="1/2", fv="1/100")],
 )
 LT_SPELLINGS = ("default", '"numpy"', '"math"', "math", "numpy[array t]")
 
@@ -356,8 +358,17 @@ def _check_numeric(res, name, p, T, refs, sp_name, case):
     elif sp_name.endswith("[array t]"):
         res.transitions += 1
         try:
+            # the caller's time array is evaluated twice (as a fitting loop does): it is left as it is, and the second
+            # evaluation is the one compared
+            tarr = np.array([_fl(t0 + tv) for tv in T])
+            tkeep = tarr.copy()
             with np.errstate(all="ignore"):
-                o = _call(name, np.array([_fl(t0 + tv) for tv in T]), pf, kw)
+                _call(name, tarr, pf, kw)
+                o = _call(name, tarr, pf, kw)
+            if not np.array_equal(tarr, tkeep):
+                res.outcomes["num:numpy:CALLERS-TIME-ARRAY-MODIFIED"] += 1
+                res.violation("C17|%s|numpy|callers-time-array-modified" % name, "%s(t, %s) with an array of times: after two calls the caller's array holds %r (was %r)" % (
+                    name, _pstr(p), tarr.tolist(), tkeep.tolist()), dict(case, mode=sp_name), tarr.tolist(), tkeep.tolist())
             o = o if isinstance(o, tuple) else (o,)
             arrs = [np.broadcast_to(np.asarray(x, dtype=float), (len(T),)) for x in o]
             obs = [[float(a[k]) for a in arrs] for k in range(len(T))]
